@@ -241,11 +241,12 @@ theorem winRel_settle (c : Conn) (tag : String) (sid : Nat) (err : Option Err) (
   · exact winRel_finish _ _ _ _
 
 theorem winRel_dispatch (c : Conn) (f : Frame.Frame) : WinRel c (dispatch c f).1 := by
-  rw [dispatch_eq]
+  obtain ⟨skd, skb, ske, hsk⟩ := skipHeaders_shape c f
+  rw [dispatch_eq, hsk]
   split
-  · exact WinRel.refl c
+  · exact ⟨List.Sublist.refl _, rfl, rfl, rfl, rfl, fun _ h => .inl h⟩
   · split
-    · exact WinRel.refl c
+    · exact ⟨List.Sublist.refl _, rfl, rfl, rfl, rfl, fun _ h => .inl h⟩
     · split
       · exact ⟨List.Sublist.refl _, rfl, rfl, rfl, rfl, fun _ h => .inl h⟩
       · exact ((winRel_prepare c f).trans (winRel_readStream _ _ _ _)).trans (winRel_settle _ _ _ _ _)
